@@ -126,6 +126,14 @@ unicode_pattern = re.compile(
 )
 
 
+def _checked_chr(value: int) -> str:
+    """chr(), refusing surrogate code points: they are not characters and cannot be
+    encoded as UTF-8 (and hence not as JSON or BSON) by the backends."""
+    if 0xD800 <= value <= 0xDFFF:
+        raise ValueError("U+%04X is a surrogate code point, not a character" % value)
+    return chr(value)
+
+
 def unicode_code(code: str) -> str:
     r"""
     Convert a Unicode character code to a Unicode character.
@@ -139,12 +147,12 @@ def unicode_code(code: str) -> str:
     """
     try:
         if code.isdigit():  # decimal number
-            return chr(int(code))
+            return _checked_chr(int(code))
         else:
             match = unicode_pattern.match(code)
             if match:  # hex number
                 value = match.group(1) or match.group(2)
-                return chr(int(value, 16))
+                return _checked_chr(int(value, 16))
             else:  # other text
                 return code
     except OverflowError as detail:
